@@ -434,7 +434,7 @@ fn run_raw_case(sink: &mut Sink, units: &[u32], keys: &[(Vec<u8>, u32)], texts: 
     for t in texts {
         let mut outs = vec![];
         for off in 0..=t.len() {
-            let r = catch(|| trie.common_prefix_iterator(t, off).map(|e| (e.value, e.end)).collect::<Vec<_>>());
+            let r = catch(|| trie.common_prefix_iterator(t, off).map(|e| (e.value, e.end as usize)).collect::<Vec<(u32, usize)>>());
             let mut want: Vec<(u32, usize)> = keys.iter().filter(|(k, _)| t[off..].starts_with(k)).map(|(k, v)| (*v, off + k.len())).collect();
             want.sort_by_key(|x| x.1);
             match r {
@@ -611,7 +611,7 @@ fn run_case(sink: &mut Sink, csvs: &[String], texts: &[String], exacts: &[String
         let tb = t.as_bytes();
         let mut outs = vec![];
         for off in 0..=tb.len() {
-            let r = catch(|| loaded.lexicon_set.lookup(tb, off).map(|e| (e.word_id.as_raw(), e.end)).collect::<Vec<_>>());
+            let r = catch(|| loaded.lexicon_set.lookup(tb, off).map(|e| (e.word_id.as_raw(), e.end as usize)).collect::<Vec<(u32, usize)>>());
             match r {
                 Ok(v) => {
                     let mut s = v.clone();
